@@ -18,6 +18,7 @@ func lifeCfg() engine.GenCfg {
 	cfg.PApi = 35
 	cfg.PAddAgain = 55
 	cfg.MaxBurst = 8
+	cfg.PMacro = 12
 	cfg.W = map[string]int{
 		engine.KCreate: 14, engine.KWrite: 5, engine.KChmod: 3, engine.KUnlink: 14, engine.KMkdir: 2, engine.KRmdir: 2,
 		engine.KRename: 12, engine.KLink: 8, engine.KSymlink: 4, engine.KHold: 6, engine.KRelease: 4, engine.KRmr: 1, engine.KTrunc: 1,
